@@ -262,12 +262,26 @@ func execRun(pr execPrepared, in execIn) (execObs, string) {
 	if in.Api == 0 {
 		limit = in.T + 600
 	}
-	if obs.Ms > limit && pr.hook == nil {
+	if obs.Ms > limit && pr.hook == nil && obs.Class != "hang" {
 		first := obs.Ms
 		obs, coq = execRunOnce(pr, in)
 		obs.Retried = first
 	}
 	return obs, coq
+}
+
+// execWatchdogMs: well beyond every bound of the property and beyond what the pinned (unrepaired) code needs for
+// the longest lingering descendant of the generated cases
+func execWatchdogMs(in execIn) int {
+	w := 2000
+	if in.Api == 0 {
+		w = in.T
+	}
+	longest := in.Sleep
+	if in.Hold > longest {
+		longest = in.Hold
+	}
+	return 3*w + longest + 3000
 }
 
 func execRunOnce(pr execPrepared, in execIn) (execObs, string) {
@@ -277,36 +291,64 @@ func execRunOnce(pr execPrepared, in execIn) (execObs, string) {
 	var fval float64
 	var ival int
 	var err error
+	// the call runs under a watchdog: a call that is still blocked long after every bound of the property is
+	// recorded as a hang (the goroutine is abandoned) instead of stalling the driver
+	watchdog := time.Duration(execWatchdogMs(in)) * time.Millisecond
+	var sensorAfter *sensors.CmdSensor
 	t0 := time.Now()
-	pn := catch(func() {
-		switch in.Api {
-		case 0:
-			text, err = util.SafeCmdExecution(path, []string{"a", "b"}, time.Duration(in.T)*time.Millisecond)
-		case 1:
-			s := &sensors.CmdSensor{Config: configuration.SensorConfig{ID: "s", Cmd: &configuration.CmdSensorConfig{Exec: path}}}
-			fval, err = s.GetValue()
-		default:
-			f := &fans.CmdFan{Config: configuration.FanConfig{ID: "f", Cmd: &configuration.CmdFanConfig{
-				SetPwm: &configuration.ExecConfig{Exec: path, Args: []string{"%pwm%"}},
-				GetPwm: &configuration.ExecConfig{Exec: path},
-				GetRpm: &configuration.ExecConfig{Exec: path},
-			}}}
+	done := make(chan string, 1)
+	go func() {
+		done <- catch(func() {
 			switch in.Api {
-			case 2:
-				ival, err = f.GetPwm()
-			case 3:
-				err = f.SetPwm(77)
+			case 0:
+				text, err = util.SafeCmdExecution(path, []string{"a", "b"}, time.Duration(in.T)*time.Millisecond)
+			case 1:
+				s := &sensors.CmdSensor{Config: configuration.SensorConfig{ID: "s", Cmd: &configuration.CmdSensorConfig{Exec: path}}}
+				sensorAfter = s
+				fval, err = s.GetValue()
 			default:
-				ival, err = f.GetRpm()
+				f := &fans.CmdFan{Config: configuration.FanConfig{ID: "f", Cmd: &configuration.CmdFanConfig{
+					SetPwm: &configuration.ExecConfig{Exec: path, Args: []string{"%pwm%"}},
+					GetPwm: &configuration.ExecConfig{Exec: path},
+					GetRpm: &configuration.ExecConfig{Exec: path},
+				}}}
+				switch in.Api {
+				case 2:
+					ival, err = f.GetPwm()
+				case 3:
+					err = f.SetPwm(77)
+				default:
+					ival, err = f.GetRpm()
+				}
 			}
-		}
-	})
+		})
+	}()
+	pn := ""
+	hung := false
+	select {
+	case pn = <-done:
+	case <-time.After(watchdog):
+		hung = true
+	}
 	obs.Ms = int(time.Since(t0) / time.Millisecond)
+	if !hung && pn == "" && sensorAfter != nil {
+		// what the sensor monitor does next with the same sensor object must not block either
+		d2 := make(chan struct{}, 1)
+		go func() { sensorAfter.SetMovingAvg(1); _ = sensorAfter.GetMovingAvg(); d2 <- struct{}{} }()
+		select {
+		case <-d2:
+		case <-time.After(time.Second):
+			hung = true
+			obs.Ms = int(time.Since(t0) / time.Millisecond)
+		}
+	}
 	if hook != nil {
 		obs.HookHit = *hook
 	}
 	res := ""
 	switch {
+	case hung:
+		obs.Class, res = "hang", "OHang"
 	case pn != "":
 		obs.Class, obs.Msg, res = "panic", pn, "OPanic"
 	case err != nil:
